@@ -169,13 +169,15 @@ Definition sizes_conflict (l : list (str * nat)) : bool :=
    so that every generated case is checked against them, and no proof has to dig them out of the run):
    consistent axes and a topological order (Pipeline construction), every array of a MapSpec is an input
    or an output, the denotation names exactly the outputs, actual rank = declared rank, outputs without
-   MapSpec are not indexed by any MapSpec, loaded intermediate coordinates have distinct values. *)
+   MapSpec are not indexed by any MapSpec, names contain no ':', loaded intermediate coordinates have
+   distinct values. *)
 Definition valid_req (q : req) : bool :=
   request_ok (q_funcs q) (q_inputs q)
   && match denote_run sym_body (q_funcs q) (q_inputs q) (q_internal q) with
      | Err _ => false
      | Ok den =>
          list_eqb str_eqb (map fst (d_out den)) (all_outputs q)
+         && forallb (fun kv => match snd kv with VA arr => nd_wf arr | VS _ => true end) (d_out den)
          && forallb (fun a => match value_in q den (aname a) with
                               | Some (VA arr) => length (shp arr) =? rank a
                               | _ => false end) (all_aspecs (specs_of q))
@@ -190,6 +192,7 @@ Definition valid_req (q : req) : bool :=
   && forallb (fun f => match fspec f with
                        | None => forallb (fun o => negb (mem_str o (map aname (all_aspecs (specs_of q))))) (fouts f)
                        | Some _ => true end) (q_funcs q)
+  && forallb (fun n => negb (mem_char ":"%char n)) (all_outputs q ++ input_names q)
   && forallb (fun kv => match snd kv with VA a => nodup_str (dat a) | VS _ => true end) (q_inputs q)
   && (q_kind q <? 2).
 
